@@ -55,7 +55,7 @@ pub fn gen_case(tape: &mut Tape, cfg: BodyCfg, knobs: &LangKnobs) -> Value {
     let vals: Vec<Vec<(i32, Val)>> = (0..8).map(|_| gen_valuation(tape, &spec)).collect();
     let mentioned: Vec<i32> = mentioned_regs(&body).into_iter().collect();
     let mentioned_plain: Vec<i32> = mentioned_regs_outside_diff_switch(&body).into_iter().collect();
-    json!({"spec": spec.to_json(), "text": text, "valuations": valuations_to_json(&vals), "mentioned": mentioned, "mentioned_plain": mentioned_plain, "stmts": count_stmts(&body),
+    json!({"spec": spec.to_json(), "text": text, "valuations": valuations_to_json(&vals), "mentioned": mentioned, "mentioned_plain": mentioned_plain, "mentioned_live": mentioned_regs_live(&body).into_iter().collect::<Vec<i32>>(), "stmts": count_stmts(&body),
            "features": if body_has_nested_diff_switch(&body) { vec!["nested_diff_switch"] } else { vec![] }})
 }
 
@@ -72,7 +72,7 @@ impl Property for C02 {
         let mut cfg = BodyCfg::full();
         cfg.exclude_reg_in_diff_switch = known.has("c05-reg-in-diff-switch");
         cfg.nested_diff_switch = !known.has("nested-diff-switch");
-        cfg.const_ternary_cond = !known.has("reg-mention-folded-away");
+        cfg.const_ternary_cond = !known.has("reg-mention-eliminated");
         let knobs = LangKnobs { pad_intrinsics: if known.has("intrinsic-interior-padding") { 1 } else { 2 }, rich: true, anti_scratch: false };
         gen_case(tape, cfg, &knobs)
     }
@@ -139,8 +139,10 @@ impl Property for C02 {
                     let bound: Vec<i32> = compiled.info.as_ref().map(|i| i.register_info.locals.iter().map(|l| match l.bound_to { truth::debug_info::LocalBinding::Reg(r) => r }).collect()).unwrap_or_default();
                     let clash: Vec<i32> = bound.iter().copied().filter(|r| mentioned.contains(r)).collect();
                     let _ = reg;
+                    let mentioned_live: Vec<i32> = case["mentioned_live"].as_array().map(|a| a.iter().map(|x| x.as_i64().unwrap() as i32).collect()).unwrap_or_else(|| mentioned.clone());
                     let sig = if !clash.is_empty() {
-                        if clash.iter().all(|r| !mentioned_plain.contains(r)) { "c02:scratch-clobber:reg-mentioned-only-in-diff-switch".to_string() }
+                        if clash.iter().all(|r| !mentioned_live.contains(r)) { "c02:scratch-clobber:reg-mentioned-only-in-eliminated-code".to_string() }
+                        else if clash.iter().all(|r| !mentioned_plain.contains(r)) { "c02:scratch-clobber:reg-mentioned-only-in-diff-switch".to_string() }
                         else if clash.iter().all(|r| !after_fold.contains(r)) { "c02:scratch-clobber:reg-mentioned-only-in-folded-code".to_string() }
                         else { "c02:scratch-clobber:mentioned-reg".to_string() }
                     } else if case["features"].as_array().map(|a| a.iter().any(|x| x == "nested_diff_switch")).unwrap_or(false) && diff.starts_with("call") {
